@@ -470,7 +470,13 @@ func (g *gm) call(c *ast.CallExpr) string {
 			name = sx.Sel.Name + "." + name
 		}
 		return "(.mcall " + g.expr(fn.X) + " " + strconv.Quote(name) + " " + g.args(c) + ")"
-	case *ast.ArrayType, *ast.ParenExpr, *ast.FuncLit:
+	case *ast.ArrayType:
+		// `[]byte(x)`: the byte string itself (strings and byte slices are one kind of value in the embedding, as for `string(b)`)
+		if id, ok := fn.Elt.(*ast.Ident); ok && fn.Len == nil && id.Name == "byte" && len(c.Args) == 1 {
+			return "(.call \"string\" [" + g.expr(c.Args[0]) + "])"
+		}
+		return "(.call " + g.bad("?call", c) + " [])"
+	case *ast.ParenExpr, *ast.FuncLit:
 		return "(.call " + g.bad("?call", c) + " [])"
 	}
 	return "(.call " + g.bad("?call", c) + " [])"
@@ -1106,6 +1112,10 @@ func genGoMiniAll() []*leanFile {
 		[]string{sv + "metadata.go"},
 		map[string][]string{sv + "metadata.go": {"metadataAPI.electNewPartitionLeader"}},
 		[]string{sv + "metadata.go"})})
+	out = append(out, &leanFile{name: "GoAck", raw: genGoMini("GoAck",
+		[]string{sv + "partition.go", sv + "api.go"},
+		map[string][]string{sv + "partition.go": {"partition.processPendingMessage", "partition.sendAck"}, sv + "api.go": {"apiServer.ensurePublishPreconditions"}},
+		[]string{sv + "partition.go", sv + "api.go"})})
 	out = append(out, &leanFile{name: "GoFailover", raw: genGoMini("GoFailover",
 		[]string{sv + "failover.go", sv + "partition.go"},
 		map[string][]string{
